@@ -962,4 +962,33 @@ impl<K: KdfTrait> Drop for ExporterSecret<K> {
     assert!(info.len() < 65536);
 
     // In KeySchedule(),""")]),
+    # ------------------------------------------------------------------ loop-form variants of the nonce helper
+    dict(name='c04-loopform-skips-last-byte', expect=[('C04', 'R04.1')],
+         note='rewritten as an indexed loop that forgets the last byte: nonces differ only from message 256 on... and collide with RFC peers',
+         edits=[(AEAD, """    // XOR the base nonce bytes with the sequence bytes
+    let new_nonce_iter = base_nonce
+        .0
+        .iter()
+        .zip(seq_buf.0.iter())
+        .map(|(nonce_byte, seq_byte)| nonce_byte ^ seq_byte);
+
+    // This cannot fail, as the length of AeadNonce<A> is precisely the length of Seq
+    AeadNonce(GenericArray::from_exact_iter(new_nonce_iter).unwrap())""", """    for i in 0..nonce_size - 1 {
+        seq_buf.0[i] ^= base_nonce.0[i];
+    }
+    seq_buf""")]),
+    dict(name='c04-loopform-or-instead-of-xor', expect=[('C04', 'R04.1')],
+         note='indexed loop uses | instead of ^',
+         edits=[(AEAD, """    // XOR the base nonce bytes with the sequence bytes
+    let new_nonce_iter = base_nonce
+        .0
+        .iter()
+        .zip(seq_buf.0.iter())
+        .map(|(nonce_byte, seq_byte)| nonce_byte ^ seq_byte);
+
+    // This cannot fail, as the length of AeadNonce<A> is precisely the length of Seq
+    AeadNonce(GenericArray::from_exact_iter(new_nonce_iter).unwrap())""", """    for i in 0..nonce_size {
+        seq_buf.0[i] |= base_nonce.0[i];
+    }
+    seq_buf""")]),
 ]
